@@ -85,6 +85,8 @@ func nonSuccessReason(ls LabelSet) (bool, string) {
 
 func checkC13(cx *Ctx, r *Report) {
 	w, fx := cx.W, cx.Fx
+	// the registered locations are used as published: module code does not edit decoded metadata (shared with C16)
+	cx.checkDecodedMetadataUntouched(r)
 	// request data must not be shared between requests through recycled buffers (R-POOL, see C15)
 	cx.checkPoolEscape(r)
 	r.Clauses = []string{
